@@ -121,7 +121,8 @@ def scripts_crash(tier, rng, prefix):
     for name, pre in named:
         lay = lays.get(name, [])
         for k, ops in enumerate(crash_images(rng, lay, 3 if tier == "quick" else 5)):
-            out.append((f"{name}i{k}", pre + ["crash"] + ops + ["fsop settle", "dir", "open"] + PROBE))
+            out.append((f"{name}i{k}", pre + ["crash"] + ops + ["fsop settle", "dir", "open"] +
+                        (PROBE if (k + len(pre)) % 3 else PROBE_B)))
     return out, {"bases": nb, "crash_points": len(named)}
 
 
@@ -151,8 +152,15 @@ def scripts_c05_recovery(tier, rng):
             variants.append([f"fsop cut {newest[0]} {rng.below(newest[1] + 1)}"])
             variants.append([f"fsop cut {newest[0]} 0"])
         for k, v in enumerate(variants):
-            out.append((f"{name}v{k}", pre + ["crash"] + v + ["fsop settle", "dir", "open"] + PROBE))
+            out.append((f"{name}v{k}", pre + ["crash"] + v + ["fsop settle", "dir", "open"] +
+                        (PROBE if k % 2 == 0 else PROBE_B)))
     return out
+
+
+PROBE_B = ["st", READALL, "dir",
+           # the very first write after recovery is an append
+           "purge 2000000 5000000", "app 2000000,5000001,aa", "vote 1000000 0", "flush 31337", "widle", "st", READALL,
+           "drop", "open", "st", READALL]
 
 
 def find_open_after(prim, ig, marker):
@@ -385,8 +393,11 @@ def oracle_c10(script, ig, mg):
 def scripts_c09(tier, rng):
     nb = 20 if tier == "quick" else 200
     bases = base_histories(rng, nb, max_ops=14, worker_steps=False, queries=(), payload_sizes=(0, 1, 7, 40),
-                           weights=dict(append=45, purge=4, truncate=5, ud=6))
-    named = [(f"c09b{i}", b + ["flush 9000", "widle", "drop"]) for i, b in enumerate(bases)]
+                           weights=dict(append=45, purge=4, truncate=5, ud=12))
+    bases = [[l if not l.startswith("cfg") else rng.choice(["cfg mr=3", "cfg mr=2", "cfg mr=5", "cfg"]) for l in b]
+             for b in bases]
+    # the state and entries as written, observed on the implementation before the damage
+    named = [(f"c09b{i}", b + ["flush 9000", "widle", "st", READALL, "drop"]) for i, b in enumerate(bases)]
     lays = layouts(named)
     out = []
     for name, pre in named:
@@ -394,15 +405,30 @@ def scripts_c09(tier, rng):
         if not lay:
             continue
         positions = [(fid, p) for (fid, ln, du, bnd) in lay for p in range(0, bnd[-1])]
-        k = 16 if tier == "quick" else 200
+        # the head record of every chunk (its Option tags and the user-data length prefix are
+        # layout bytes) and the first bytes of every record (tag, ids, length prefixes)
+        heads = [(fid, p) for (fid, ln, du, bnd) in lay for p in range(0, bnd[1])] if lay else []
+        starts = [(fid, b + d) for (fid, ln, du, bnd) in lay for b in bnd[:-1] for d in range(0, 28)
+                  if b + d < bnd[-1]]
+        k = 10 if tier == "quick" else 120
         if tier == "thorough" and len(positions) <= 400:
             pick = positions
         else:
             pick = [positions[rng.below(len(positions))] for _ in range(min(k, len(positions)))]
+            pick += [heads[rng.below(len(heads))] for _ in range(min(k, len(heads)))]
+            pick += [starts[rng.below(len(starts))] for _ in range(min(k // 2, len(starts)))]
         for (fid, p) in pick:
             mask = rng.choice([1, 2, 4, 8, 16, 32, 64, 128, 255, 1])
-            out.append((f"{name}f{fid}p{p}m{mask}",
-                        pre + [f"fsop flip {fid} {p} {mask}", "dir", "open", "st", READALL, "dir"]))
+            tr = ["cfg tr=0"] if rng.chance(1, 3) else []
+            out.append((f"{name}f{fid}p{p}m{mask}t{len(tr)}",
+                        pre + tr + [f"fsop flip {fid} {p} {mask}", "dir", "open", "st", READALL, "dir"]))
+        # every byte of the head record of one middle chunk, with a mask that makes lengths grow
+        if len(lay) >= 3 and rng.chance(1, 2):
+            fid, ln, du, bnd = lay[1 + rng.below(len(lay) - 2)]
+            for p in range(0, bnd[1]):
+                mask = rng.choice([64, 128])
+                out.append((f"{name}h{fid}p{p}m{mask}",
+                            pre + [f"fsop flip {fid} {p} {mask}", "dir", "open", "st", READALL, "dir"]))
         # a middle chunk missing
         if len(lay) >= 3:
             mid = lay[1 + rng.below(len(lay) - 2)][0]
@@ -463,16 +489,16 @@ def oracle_c09(script, ig, mg):
     dir_before = tail[o - 1].line if o >= 1 and tail[o - 1].line.startswith("dir ") else None
     dir_after = next((x.line for x in tail[o + 1:] if x.line.startswith("dir ")), None)
     if g.line == "open ok":
-        # allowed only if nothing was lost: state and entries as written
-        hi = None
+        # allowed only if nothing was lost: state and entries as written (as the implementation
+        # itself reported them right before it was closed)
+        hi = 0
         cands = {}
-        if mgp:
-            for s in mgp.spec:
-                if s.startswith("cand "):
-                    p = s.split(" ", 2)
-                    cands[int(p[1])] = p[2]
-                if s.startswith("range "):
-                    hi = int(s.split()[2])
+        di = next((k for k in range(n_before - 1, -1, -1) if ig[k].line.startswith("dropped")), None)
+        if di is not None and di >= 2 and ig[di - 2].line.startswith("st ") and ig[di - 1].line.startswith("read ") \
+                and prim[di - 1] == READALL:
+            cands[0] = f"{ig[di - 2].line} | {ig[di - 1].line}"
+        else:
+            hi = None
         got = f"{tail[o + 1].line} | {tail[o + 2].line}" if o + 2 < len(tail) else None
         if hi is not None and got is not None and cands.get(hi) != got:
             cls = "damage-silently-absorbed"
